@@ -47,6 +47,9 @@ def mem_chart(ctx, sp, game, perm=False):
     sms.title, sms.artist, sms.credit = "Song", "art", "me"
     sms.offset = sp.T0
     sms.sample_start, sms.sample_length = 1500.0, 10000.0
+    if getattr(sp, "stops", None):
+        st = [C["Stop"](sp.t(b), ln) for b, ln in sp.stops]
+        m.stops = C["StopList"](st[::-1] if perm else st)
     return sms
 
 
@@ -67,7 +70,8 @@ def written(ctx, game, obj):
         ch = d["charts"][0]
         return dict(kind="beats", hits=[(o["col"], o["beat"]) for o in ch["objects"] if o["kind"] == "hit"],
                     holds=[(o["col"], o["beat"], o["end"]) for o in ch["objects"] if o["kind"] == "hold"], tempo=sorted(d["bpms"], key=lambda p: p[0]),
-                    offset_ms=d["offset_ms"], extra=dict(sample_start=d["header"].get("#SAMPLESTART"), sample_length=d["header"].get("#SAMPLELENGTH")), ill=ch["ill_formed"])
+                    offset_ms=d["offset_ms"], extra=dict(sample_start=d["header"].get("#SAMPLESTART"), sample_length=d["header"].get("#SAMPLELENGTH")), ill=ch["ill_formed"],
+                    stops=[tuple(ctx.num(x) for x in s.strip().split("=")) for s in d["stops"]])
     if game == "bms":
         d = ref_bms.parse(ctx, obj.write().split(b"\r\n"), c04.layout("BME"))
         fil = [(F(0), d["bpm0"])]
